@@ -19,6 +19,7 @@ func init() {
 			"R2 every reflect.Value.Set is dominated by the true edge of an AssignableTo test on the same (source, destination) pair, or is one of the audited type-safe-by-construction sites (table with the invariant); the replacers that place values produced by nested replacers or recorded runs go through the guarded helper; " +
 			"R3 every explicit panic and every single-result type assertion in the module is in the audited inventory (one line of invariant each); a new one, or a listed one whose function changed, is reported; " +
 			"R4 every data.Lookup(d, K, *T) has a data.WithValue(d, K, T) with the same static key type and value type (a mismatch panics inside data.Lookup); R5 errors of mainCmd.Run reach exit status 1, patch.Parse / File.Apply return errors of parse/compile rather than panic; R6 no uncomparable scalar is reachable in the go/ast schema (ValueMatcher's == would panic); R7 every recursive search (a function that calls itself from inside a candidate loop) consults a failure memo before searching and records the failure after the loop, so the search is not exponential in the number of '...'; R8 a pointer obtained by type-asserting reflect.Value.Interface() (optional go/ast fields are typed nil pointers inside the interface) is dereferenced only behind a nil test, listed exceptions aside. " +
+			"R9 the pointer result of a call whose error is tested is never consumed on the failure side — not used in the blocks only the failure edge reaches, and not carried on through a phi edge leaving them unless every later consumer sits behind a nil test of it (a nil *ast.File surviving a failed Replace crashes the printer); R10 slice expressions whose two bounds are both computed have low <= high established by a counting loop that starts at low, by a dominating comparison, or are listed as audited by construction. " +
 			"NOT decided: general nil-dereference and index-out-of-range safety, recursion depth, memory use, and the internals of go/scanner, go/parser, go/printer, reflect.",
 		Trusted:     append([]string{"go/scanner.Scanner.Scan keeps returning token.EOF once the input is exhausted", "bufio.Scanner.Scan terminates"}, commonTrusted...),
 		Assumptions: commonAssumptions,
@@ -69,8 +70,25 @@ func scanSpecs(r *an.Run) map[string]*an.ScanSpec {
 
 // loopExceptions: loops that are neither index/range nor counter loops nor
 // scanner loops, with the reason they terminate.
-var loopExceptions = map[string]string{
-	"(*main.patchLoader).LoadFileList": "for scanner.Scan(): bufio.Scanner stops at end of input or on the first error",
+var loopExceptions = map[string]string{}
+
+// governedByBufioScan: the loop's header test is the result of
+// (*bufio.Scanner).Scan and the loop is left when it is false.
+func governedByBufioScan(l *an.Loop) bool {
+	iff, ok := l.Header.Instrs[len(l.Header.Instrs)-1].(*ssa.If)
+	if !ok {
+		return false
+	}
+	cond, pos := an.StripNot(iff.Cond)
+	c, ok := cond.(*ssa.Call)
+	if !ok || !an.IsCallTo(c, "(*bufio.Scanner).Scan") {
+		return false
+	}
+	exit := 1
+	if !pos {
+		exit = 0
+	}
+	return !l.Blocks[l.Header.Succs[exit]]
 }
 
 func c08ScannerLoops(r *an.Run) {
@@ -148,6 +166,10 @@ func c08ScannerLoops(r *an.Run) {
 			key := short(f) + "|loop" + loopTag(f, l, li)
 			if why, ok := loopExceptions[short(f)]; ok {
 				r.Pass(key+"|exception", loopPos(l), "listed exception: %s", why)
+				continue
+			}
+			if governedByBufioScan(l) {
+				r.Pass(key+"|bufio-scan", loopPos(l), "for scanner.Scan(): bufio.Scanner returns false at end of input or on the first error, and the loop leaves when it does")
 				continue
 			}
 			if terminatesByWorklist(l) {
